@@ -158,7 +158,12 @@ class Affine2D(NamedTuple):
 
     def is_degenerate(self) -> bool:
         """Return True if [a b c d] matrix is degenerate (determinant is 0)."""
-        return abs(self.determinant()) <= float_info.epsilon
+        # zero up to the rounding of the products it is computed from; a fixed
+        # threshold would also reject legitimate very small (or accept bad very
+        # large) scales
+        return abs(self.determinant()) <= float_info.epsilon * max(
+            abs(self.a * self.d), abs(self.b * self.c)
+        )
 
     def inverse(self):
         """Return the inverse Affine2D transformation.
